@@ -1,11 +1,12 @@
 (* C17 -- tokens tile the source and re-lex to themselves.
-   Only statements here; proofs are in Proofs/LexProofs.v, Proofs/LexTile.v, Proofs/LexRelex.v.
+   Only statements here; proofs are in Proofs/LexProofs.v, Proofs/LexTile.v, Proofs/LexTrunc.v, Proofs/LexHeads.v, Proofs/LexRelex.v.
    The model is Model/Lexer.v; its tables are Gen/GenLexTables.v, regenerated from
    /repo/prqlc/prqlc-parser/src/lexer/mod.rs on every run and packed by Model/LexerGen.v.
    All theorems are for ALL strings (lists of code points) and for ALL character-class functions
    is_alpha / is_alnum (Rust's char::is_alphabetic / is_alphanumeric), except where [class_ok] is assumed. *)
 From Coq Require Import List NArith Bool.
-From PV Require Import Lib.ListX Model.Lexer Model.LexerGen Model.LexerExec Proofs.LexProofs Proofs.LexTile.
+From PV Require Import Lib.ListX Model.Lexer Model.LexerGen Model.LexerExec Proofs.LexProofs Proofs.LexTile
+  Proofs.LexRelexDefs Proofs.LexRelex Proofs.LexExecOk.
 Import ListNotations.
 Local Open Scope N_scope.
 
@@ -71,3 +72,54 @@ Print Assumptions c17_tail_is_inline_whitespace.
 Theorem c17_reject_no_tokens : forall ia ian s, lex ia ian T s = None -> forall ts, lex ia ian T s <> Some ts.
 Proof. intros ia ian s H ts E. rewrite H in E. discriminate. Qed.
 Print Assumptions c17_reject_no_tokens.
+
+(* ---------------------------------------------------------------------------------------------------------------
+   Re-lexing.  FULL STATEMENT (false of the faithful model -- finding F12):
+
+     forall ia ian, class_ok ia ian -> forall s ts' t,
+       lex ia ian T s = Some (start_token :: ts') -> In t ts' ->
+       lex ia ian T (bslice s (tstart t) (tend t))
+         = Some [start_token; {| tkind := tkind t; tstart := 0; tend := tend t - tstart t |}]
+
+   i.e. the source slice of every token, lexed on its own, is accepted and yields exactly Start plus that same
+   token (same kind and payload, span shifted to 0).  It fails for an identifier spelled like a keyword or like
+   true / false / null that is followed by a non-terminator: `case(` lexes as Ident "case", Control '(' but the
+   slice `case` alone lexes as Keyword "case".  Below: the refutation (by computation, with the executable
+   character classes, which satisfy class_ok) and the theorem for every token outside that class. *)
+
+(* table obligation for the re-lex theorem (order of the alternatives of token()/literal(), keywords/words/units
+   are lower-case words, operators are two punctuation characters and pairwise distinct, control and end_expr
+   characters are ASCII punctuation, no keyword starts with true/false/null, 0b/0x/0o shape, digit counts) *)
+Theorem c17_relex_tables_ok : relex_tables_ok T = true.
+Proof. vm_compute. reflexivity. Qed.
+Print Assumptions c17_relex_tables_ok.
+
+Theorem c17_relex_refuted : exists s ts' t,
+  lex alpha_exec alnum_exec T s = Some (start_token :: ts') /\ In t ts' /\
+  lex alpha_exec alnum_exec T (bslice s (tstart t) (tend t))
+    <> Some [start_token; {| tkind := tkind t; tstart := 0; tend := tend t - tstart t |}].
+Proof.
+  exists [99; 97; 115; 101; 40] (* case( *),
+         [{| tkind := KIdent [99; 97; 115; 101]; tstart := 0; tend := 4 |}; {| tkind := KControl 40; tstart := 4; tend := 5 |}],
+         {| tkind := KIdent [99; 97; 115; 101]; tstart := 0; tend := 4 |}.
+  split; [vm_compute; reflexivity|]. split; [left; reflexivity|]. vm_compute. discriminate.
+Qed.
+Print Assumptions c17_relex_refuted.
+
+(* Every token that is NOT (an identifier whose own text is a keyword or true/false/null) re-lexes to itself:
+   its slice alone is accepted and gives Start plus the same kind and payload with the span moved to 0.
+   This covers every token kind (ranges with their whitespace, line wraps with their comments, strings with
+   escapes, numbers, dates, ...), for all strings and all character classes satisfying class_ok. *)
+Theorem c17_relex_partial : forall ia ian, class_ok ia ian -> forall s ts' t,
+  lex ia ian T s = Some (start_token :: ts') -> In t ts' -> ~ KeywordLikeIdent T s t ->
+  lex ia ian T (bslice s (tstart t) (tend t))
+    = Some [start_token; {| tkind := tkind t; tstart := 0; tend := tend t - tstart t |}].
+Proof. exact (fun ia ian CK => relex_partial ia ian T c17_tables_wf CK c17_relex_tables_ok). Qed.
+Print Assumptions c17_relex_partial.
+
+(* the hypothesis of c17_relex_partial is satisfiable: the executable classes used in the correspondence run *)
+Example c17_class_ok_exec : class_ok alpha_exec alnum_exec.
+Proof. exact class_ok_exec. Qed.
+(* the known class is narrow: it only contains Ident tokens whose text is one of the 13 reserved words *)
+Example c17_known_is_ident : forall s t, KeywordLikeIdent T s t -> exists w, tkind t = KIdent w /\ (In w (t_keywords T) \/ In w (words T)).
+Proof. intros s t (w & A & _ & C). exists w. auto. Qed.
